@@ -175,6 +175,35 @@ def _run_own(tier, seed, build, res):
                     meta[(g.s, 'en-GB', th)] = g
                     cases.append((c, None, 'ml'))
 
+    # a hard switch inside an insertion or an environment, text of the outer
+    # language behind its end (the scope's end restores the outer language)
+    rng2 = random.Random(12)
+    for inner in ('german', 'russian'):
+        for hard in ('russian', 'german', 'english'):
+            for opener, closer in (('\\foreignlanguage{%s}{', '}'),
+                                   ('\\begin{otherlanguage}{%s}\n', '\n\\end{otherlanguage}\n'),
+                                   ('\\begin{otherlanguage*}{%s}\n', '\n\\end{otherlanguage*}\n'),
+                                   ('\\foreignlanguage{english}{\\foreignlanguage{%s}{', '}}')):
+                for nw in (1, 8):
+                    g = G(rng2)
+                    g.s = '\\usepackage[german,russian,english]{babel}\n'
+                    for _ in range(8):
+                        g.word('en-GB'); g.s += ' '
+                    g.s += opener % inner
+                    for _ in range(nw):
+                        g.word(LT[inner]); g.s += ' '
+                    g.s += '\\selectlanguage{' + hard + '} '
+                    for _ in range(8):
+                        g.word(LT[hard]); g.s += ' '
+                    g.s = g.s.rstrip(' ') + closer + ' '
+                    for _ in range(8):
+                        g.word('en-GB'); g.s += ' '
+                    g.s += '\n'
+                    c = parsecase.T2T(g.s, lang='en-GB', pack='*', multi=True, thresh=0,
+                                      files={})
+                    meta[(g.s, 'en-GB', 0)] = g
+                    cases.append((c, None, 'ml'))
+
     def oracle(c, d, kind, im):
         g = meta.get((c.latex, c.lang, c.thresh))
         if im[0] != 'OK' or g is None:
